@@ -68,6 +68,8 @@ def _decorate(rs, meta, visual):
     v = dict(visual)
     if not rs['cls'].startswith('Text'):
         v.pop('rotation', None)
+    elif len(meta) % 2 == 0:
+        v.setdefault('rotation', 25.0)      # half of the text regions
     rs['visual'] = v
     return rs
 
@@ -174,8 +176,13 @@ class PixSkyPix(Relation):
             ctx.count('outside_domain_size')
             return
         R = S.build(rs)
+        from vf.fingerprint import fp
+        fp_R = fp(R)
         sky = R.to_sky(wcs)
+        fp_sky = fp(sky)
         back = sky.to_pixel(wcs)
+        ctx.check(fp(R) == fp_R and fp(sky) == fp_sky,
+                  f'{cls} | a conversion modifies the region it converts')
         ctx.label(cls, W.rot_family(w), 'proj:' + w['proj'],
                   'frame:' + w['frame'], 'parity:%d' % w['parity'])
         want_cls = ('PolygonPixelRegion' if cls == 'RegularPolygonPixelRegion'
@@ -337,6 +344,8 @@ class SkyPixSky(Relation):
         ss = _decorate_sky(ss, sp['meta'], sp['visual'])
         cls = ss['cls']
         Sreg = S.build(ss)
+        from vf.fingerprint import fp
+        fp_S = fp(Sreg)
         c0 = [float(v) for v in wcs.world_to_pixel(_first_sky_center(Sreg))]
         if not (np.isfinite(c0[0]) and np.isfinite(c0[1])) or max(
                 abs(c0[0] - w['crpix'][0]), abs(c0[1] - w['crpix'][1])) > 1.5 * lim + 50:
@@ -349,7 +358,10 @@ class SkyPixSky(Relation):
             # frame conversion can move the region away from the WCS centre
             ctx.count('outside_domain_far_from_crpix')
             return
+        fp_pix = fp(pix)
         back = pix.to_sky(wcs)
+        ctx.check(fp(Sreg) == fp_S and fp(pix) == fp_pix,
+                  f'{cls} | a conversion modifies the region it converts')
         ctx.label(cls, W.rot_family(w), 'frame:' + w['frame'],
                   'same_frame:%s' % sp['same_frame'])
         ctx.check(type(pix).__name__ == cls.replace('SkyRegion', 'PixelRegion'),
@@ -411,7 +423,8 @@ class SkyPixSky(Relation):
                                      np.asarray(ans)[definite]),
                       f'{cls} | membership depends on the frame the positions '
                       'are expressed in')
-        arr = np.atleast_1d(np.asarray(want))
+        ctx.check(fp(Sreg) == fp_S,
+                  f'{cls} | asking for membership modifies the sky region')
         ctx.nontrivial((W.rot_family(w) == 'wcsrot:generic' or w['parity'] == 1
                         or w['frame'] != 'icrs'))
 
@@ -524,6 +537,8 @@ def _decorate_sky(ss, meta, visual):
     v = dict(visual)
     if not ss['cls'].startswith('Text'):
         v.pop('rotation', None)
+    elif len(meta) % 2 == 0:
+        v.setdefault('rotation', 25.0)      # half of the text regions
     ss['visual'] = v
     return ss
 
